@@ -763,7 +763,7 @@ def cli_judge(out, jobs, results):
                 {(e[0], e[1], e[3], e[4]) for e in res["before"]} and res["after"] != res["before"]
             rerun = res["rc2"] == 0 and res["runs"] == 2
             summary["file_" + state] = "exact" if exact else "exec-bit-lost" if lost else "re-executed" if rerun else "other"
-            if lost and state == "absent" and "file-exec-bit-lost" in f6:
+            if lost and "file-exec-bit-lost" in f6:
                 out.known(f6["file-exec-bit-lost"]["id"], "class=file-exec-bit-lost grog build restores a deleted 0755 file output as 0644 on a cache hit")
             elif rerun and state == "noparent" and "file-parent-missing" in f6:
                 out.known(f6["file-parent-missing"]["id"], "class=file-parent-missing grog build re-executes a cached target because the file output's "
